@@ -17,9 +17,9 @@ type oracleSink struct {
 	req, exp []string
 }
 
-func (o *oracleSink) ask(req, exp string) {
+func (o *oracleSink) ask(kind, req, exp string) {
 	o.req = append(o.req, req)
-	o.exp = append(o.exp, exp)
+	o.exp = append(o.exp, kind+" "+exp)
 }
 
 func safe(f func() string) (out string) {
@@ -36,6 +36,7 @@ func safe(f func() string) (out string) {
 }
 
 // implDecode: DA/DG dl dc nil fs dict src
+// prints `view ; img=<fnv of dst[:cap)> ; canary=… dstdep=…`
 func implDecode(f []string, o *oracleSink) string {
 	dl, dc, nilF, fs := atoi(f[1]), atoi(f[2]), f[3] == "1", atoi(f[4])
 	dict, src := unhx(f[5]), unhx(f[6])
@@ -44,22 +45,49 @@ func implDecode(f []string, o *oracleSink) string {
 	if !nilF {
 		dst = buf[:dl]
 	}
+	srcCopy := append([]byte(nil), src...)
+	dictCopy := append([]byte(nil), dict...)
 	return safe(func() string {
 		n, err := lz4.UncompressBlockWithDict(src, dst, dict)
 		img := fnv(buf)
+		notes := "canary=ok"
+		ref := fill(dc, fs)
+		for k := len(dst); k < dc; k++ {
+			if buf[k] != ref[k] {
+				notes = fmt.Sprintf("canary=DIRTY@%d", k-len(dst))
+				break
+			}
+		}
+		if !bytes.Equal(src, srcCopy) || !bytes.Equal(dict, dictCopy) {
+			notes += " INPUT-MODIFIED"
+		}
+		ask := fmt.Sprintf("SD %d %s %s", len(dst), hx(dict), hx(src))
 		if err != nil {
-			o.ask(fmt.Sprintf("SD %d %s %s", dl, hx(dict), hx(src)), "err")
-			return fmt.Sprintf("err ; %d", img)
+			if n != 0 {
+				notes += " err-with-count"
+			}
+			if len(src) > 0 {
+				o.ask("dec", ask, "err")
+			}
+			return fmt.Sprintf("err ; img=%d ; %s", img, notes)
 		}
 		if n > len(dst) || n < 0 {
-			o.ask(fmt.Sprintf("SD %d %s %s", dl, hx(dict), hx(src)), fmt.Sprintf("count-out-of-range %d", n))
-			return fmt.Sprintf("ok %d OVER ; %d", n, img)
+			o.ask("dec", ask, fmt.Sprintf("count-out-of-range %d", n))
+			return fmt.Sprintf("ok %d OVER ; img=%d ; %s", n, img, notes)
 		}
 		v := fmt.Sprintf("ok %d %d", n, fnv(dst[:n]))
 		if len(src) > 0 {
-			o.ask(fmt.Sprintf("SD %d %s %s", dl, hx(dict), hx(src)), v)
+			o.ask("dec", ask, v)
 		}
-		return fmt.Sprintf("%s ; %d", v, img)
+		// C04: the result must not depend on the destination's prior contents
+		if !nilF {
+			buf2 := fill(dc, fs+101)
+			n2, err2 := lz4.UncompressBlockWithDict(src, buf2[:dl], dict)
+			if err2 != nil || n2 != n || !bytes.Equal(buf2[:n2], dst[:n]) {
+				notes += " dstdep=DEP"
+			}
+		}
+		return fmt.Sprintf("%s ; img=%d ; %s", v, img, notes)
 	})
 }
 
@@ -132,8 +160,22 @@ func implCompress(f []string, o *oracleSink) string {
 			rt = "rt=FAIL"
 		}
 		// C10 / C11: the independent spec decodes it to the source and finds it strictly valid
-		o.ask("SV "+hx(dst[:n]), "true")
-		o.ask(fmt.Sprintf("SD %d - %s", len(src), hx(dst[:n])), fmt.Sprintf("ok %d %d", len(src), fnv(src)))
-		return fmt.Sprintf("ok %d %d ; %s %s", n, fnv(dst[:n]), canary, rt)
+		o.ask("strict", "SV "+hx(dst[:n]), "true")
+		o.ask("rt", fmt.Sprintf("SD %d - %s", len(src), hx(dst[:n])), fmt.Sprintf("ok %d %d", len(src), fnv(src)))
+		// C14: a fresh compressor object gives the same bytes as the one with a history
+		det := "det=ok"
+		dst2 := make([]byte, dl)
+		var n2 int
+		if !hc {
+			var fresh lz4.Compressor
+			n2, _ = fresh.CompressBlock(src, dst2)
+		} else {
+			fresh := lz4.CompressorHC{Level: lz4.CompressionLevel(uint32(depth))}
+			n2, _ = fresh.CompressBlock(src, dst2)
+		}
+		if n2 != n || !bytes.Equal(dst2[:n2], dst[:n]) {
+			det = "det=NONDET"
+		}
+		return fmt.Sprintf("ok %d %d ; %s %s %s", n, fnv(dst[:n]), canary, rt, det)
 	})
 }
